@@ -25,12 +25,17 @@ type trigTerm struct {
 	Col string  `json:"col"` // * or w
 	Op  string  `json:"op"`
 	Lit float64 `json:"lit"`
+	Low bool    `json:"low,omitempty"` // function name spelled in lower case
 }
 
 func (t trigTerm) sql() string {
 	arg := t.Col
 	lit := fmt.Sprintf("%g", t.Lit)
-	return fmt.Sprintf("%s(%s) %s %s", strings.ToUpper(t.Fn), arg, t.Op, lit)
+	fn := strings.ToUpper(t.Fn)
+	if t.Low {
+		fn = t.Fn
+	}
+	return fmt.Sprintf("%s(%s) %s %s", fn, arg, t.Op, lit)
 }
 
 func (c17) Gen(rng *simrt.Rand, seed uint64, tier string) *Case {
@@ -45,19 +50,22 @@ func (c17) Gen(rng *simrt.Rand, seed uint64, tier string) *Case {
 	conn := []string{"AND", "OR"}[rng.Intn(2)]
 	for i := 0; i < nterms; i++ {
 		var t trigTerm
-		switch rng.Intn(6) {
+		switch rng.Intn(7) {
+		case 6: // COUNT(column) counts the rows whose column is not NULL
+			t = trigTerm{Fn: "count", Col: "w", Op: []string{">=", ">", "="}[rng.Intn(3)], Lit: float64(1 + rng.Intn(4))}
 		case 0, 1:
-			t = trigTerm{"count", "*", []string{">=", ">", "="}[rng.Intn(3)], float64(1 + rng.Intn(5))}
+			t = trigTerm{Fn: "count", Col: "*", Op: []string{">=", ">", "="}[rng.Intn(3)], Lit: float64(1 + rng.Intn(5))}
 		case 2:
-			t = trigTerm{"sum", "w", []string{">=", ">"}[rng.Intn(2)], float64(3 + rng.Intn(20))}
+			t = trigTerm{Fn: "sum", Col: "w", Op: []string{">=", ">"}[rng.Intn(2)], Lit: float64(3 + rng.Intn(20))}
 		case 3:
-			t = trigTerm{"avg", "w", []string{">=", ">", "<", "<="}[rng.Intn(4)], float64(1+rng.Intn(8)) + []float64{0, 0.5}[rng.Intn(2)]}
+			t = trigTerm{Fn: "avg", Col: "w", Op: []string{">=", ">", "<", "<="}[rng.Intn(4)], Lit: float64(1+rng.Intn(8)) + []float64{0, 0.5}[rng.Intn(2)]}
 		case 4:
-			t = trigTerm{"max", "w", []string{">=", ">"}[rng.Intn(2)], float64(4 + rng.Intn(6))}
+			t = trigTerm{Fn: "max", Col: "w", Op: []string{">=", ">"}[rng.Intn(2)], Lit: float64(4 + rng.Intn(6))}
 		default:
-			t = trigTerm{"min", "w", []string{"<=", "<"}[rng.Intn(2)], float64(1 + rng.Intn(4))}
+			t = trigTerm{Fn: "min", Col: "w", Op: []string{"<=", "<"}[rng.Intn(2)], Lit: float64(1 + rng.Intn(4))}
 		}
-		terms = append(terms, map[string]any{"fn": t.Fn, "col": t.Col, "op": t.Op, "lit": t.Lit})
+		t.Low = rng.Bool(0.4)
+		terms = append(terms, map[string]any{"fn": t.Fn, "col": t.Col, "op": t.Op, "lit": t.Lit, "low": t.Low})
 		parts = append(parts, t.sql())
 	}
 	pred := strings.Join(parts, " "+conn+" ")
@@ -138,6 +146,14 @@ func evalTerm(t trigTerm, rows []map[string]any) bool {
 	switch t.Fn {
 	case "count":
 		val = float64(len(rows))
+		if t.Col != "*" { // COUNT(w): rows whose w is not NULL / missing
+			val = 0
+			for _, r := range rows {
+				if r["w"] != nil {
+					val++
+				}
+			}
+		}
 	default:
 		var ws []float64
 		for _, r := range rows {
@@ -191,7 +207,8 @@ func (c17) Run(e *Env) {
 	for _, x := range e.C.X["terms"].([]any) {
 		m := x.(map[string]any)
 		lit, _ := toFloat(m["lit"])
-		terms = append(terms, trigTerm{m["fn"].(string), m["col"].(string), m["op"].(string), lit})
+		low, _ := m["low"].(bool)
+		terms = append(terms, trigTerm{Fn: m["fn"].(string), Col: m["col"].(string), Op: m["op"].(string), Lit: lit, Low: low})
 	}
 	and := e.C.xStr("conn") == "AND"
 	e.StartClients()
